@@ -85,6 +85,7 @@ func runC06(c *Ctx, pr *PropertyRun) {
 	sel.Exhaustive = true
 	pure := NewRule("C06", "C06.pure", "Filter/Match and their in-module callees write only to locally allocated memory (E5)")
 	pr.Rules = append(pr.Rules, tr, pol, sel, pure)
+	timeEqualityRule(c, pr, "C06")
 
 	root := p.MustFunc(pol, pkgCaldav, "Match")
 	if root == nil {
